@@ -42,19 +42,18 @@ def pair_checks(name, b1, ss1, b2, ss2, inputs, outputs, T, out, jtol, shocks, s
     return n
 
 
-def check(rng, deep):
-    m = H.load()
-    out, n = [], 0
+def check_once(m, rng, out, PAIR, MC, MC3, TWO):
+    n = 0
     T = 10
     nr = np.random.default_rng(10)
-    ssh, sst = m.pair_het.steady_state(m.PAIR_CALIB), m.pair_stage.steady_state(m.PAIR_CALIB)
+    ssh, sst = m.pair_het.steady_state(PAIR), m.pair_stage.steady_state(PAIR)
     ih, it = ssh.internals['hh'], sst.internals['hh']
     n += 1
     if np.abs(ih['Dbeg'] - it['stage0']['D']).max() > 1e-5 or np.abs(ih['a'] - it['stage1']['a']).max() > 1e-5 or np.abs(ih['c'] - it['stage1']['c']).max() > 1e-5:      # tolerances of the inner iterations
         C.push(out, dict(what='steady-state distribution / policies differ between the backward-function block and the stage block', input=dict(kind='pair', pair='het-stage'), signature=dict(op='internals', pair='het-stage')))
     shocks = [{'r': 0.002 * 0.8 ** np.arange(T)}, {'sd_e': 0.01 * 0.5 ** np.arange(T), 'transfer': np.r_[0, 0.01, np.zeros(T - 2)]}, {'shift': 0.003 * 0.7 ** np.arange(T), 'risk': 0.01 * 0.6 ** np.arange(T)}]
-    n += pair_checks('het-stage', m.pair_het, ssh, m.pair_stage, sst, ['r', 'atw', 'shift', 'risk', 'sd_e', 'rho_e', 'beta'], ['A', 'C', 'UC'], T, out, 3e-3, shocks)
-    mc = m.multi_calib()
+    n += pair_checks('het-stage', m.pair_het, ssh, m.pair_stage, sst, ['r', 'atw', 'shift', 'risk', 'sd_e', 'rho_e', 'beta'], ['A', 'C', 'UC'], T, out, 3e-3, shocks, sstol=2e-6, nltol=1e-6)     # the two blocks stop their backward iterations on different variables
+    mc = MC
     ssm, ssk = m.multi.steady_state(mc), m.kron.steady_state(mc)
     Dm, Dk = ssm.internals[m.multi.name]['D'], ssk.internals[m.kron.name]['D']
     n += 1
@@ -63,7 +62,7 @@ def check(rng, deep):
     shocks = [{'r': 0.002 * 0.8 ** np.arange(T)}, {'shift_z': 0.004 * 0.7 ** np.arange(T)}, {'shift_e': 0.003 * 0.5 ** np.arange(T), 'w': 0.01 * np.ones(T)}]
     n += pair_checks('multi-kron', m.multi, ssm, m.kron, ssk, ['r', 'w', 'shift_e', 'shift_z', 'beta'], ['A', 'C'], T, out, 1e-6, shocks)
     # the two-asset household as a backward-function block and as a stage block with a TWO-dimensional continuous choice
-    sst2, ssh2 = m.twoasset_stage.steady_state(m.TWO_CALIB), m.twoasset.steady_state(m.TWO_CALIB)
+    sst2, ssh2 = m.twoasset_stage.steady_state(TWO), m.twoasset.steady_state(TWO)
     n += 1
     d2h, d2s = ssh2.internals[m.twoasset.name], sst2.internals[m.twoasset_stage.name]
     if np.abs(d2h['D'] - d2s['portfolio']['D']).max() > 1e-5 or np.abs(d2h['a'] - d2s['portfolio']['a']).max() > 1e-5 or np.abs(d2h['b'] - d2s['portfolio']['b']).max() > 1e-5:
@@ -72,7 +71,7 @@ def check(rng, deep):
     shocks = [{'rb': 0.002 * 0.7 ** np.arange(T2)}, {'ra': 0.001 * np.ones(T2), 'tax': np.r_[0.0, 0.01, np.zeros(T2 - 2)]}]
     n += pair_checks('twoasset-stage2d', m.twoasset, ssh2, m.twoasset_stage, sst2, ['rb', 'ra', 'tax', 'beta'], ['A', 'B', 'C'], T2, out, 5e-3, shocks, sstol=2e-5, nltol=2e-6)      # tolerances of the inner iterations of the two-asset problem
     # three independent exogenous dimensions vs their Kronecker product (the running expectation across dimensions must be cumulative)
-    mc3 = m.multi3_calib()
+    mc3 = MC3
     ss3, ssk3 = m.multi3.steady_state(mc3), m.kron3.steady_state(mc3)
     D3, Dk3 = ss3.internals[m.multi3.name]['D'], ssk3.internals[m.kron3.name]['D']
     n += 1
@@ -81,6 +80,20 @@ def check(rng, deep):
     T3 = 6
     shocks = [{'shift_e': 0.003 * 0.5 ** np.arange(T3)}, {'shift_z': 0.004 * 0.7 ** np.arange(T3), 'shift_q': 0.002 * np.ones(T3)}]
     n += pair_checks('multi3-kron3', m.multi3, ss3, m.kron3, ssk3, ['r', 'shift_e', 'shift_z', 'shift_q'], ['A', 'C'], T3, out, 1e-6, shocks)
+    return n
+
+
+def check(rng, deep):
+    m = H.load()
+    out = []
+    n = check_once(m, rng, out, m.PAIR_CALIB, m.multi_calib(), m.multi3_calib(), m.TWO_CALIB)
+    if deep:            # calibrations in a box around the fixtures
+        for _ in range(2):
+            try:
+                n += check_once(m, rng, out, H.perturb(m.PAIR_CALIB, rng), H.perturb(m.multi_calib(), rng), H.perturb(m.multi3_calib(), rng), H.perturb(m.TWO_CALIB, rng))
+            except ValueError as ex:
+                if 'No convergence' not in str(ex):
+                    raise
     return out, n
 
 
